@@ -185,6 +185,8 @@ class UnitFacet:
             return TOP
         if a is POLY and b is POLY:
             return POLY
+        if (a is POLY and definite(b) and b.is_pure()) or (b is POLY and definite(a) and a.is_pure()):
+            return POLY          # a literal scaled by a pure number still adapts
         if b is POLY:
             k = pow10(nb.attr) if nb.op == "Const" else None
             if k is not None and definite(a) and (a.dims or a.log is False and a.dec != 0):
@@ -268,6 +270,14 @@ class UnitFacet:
             if k in ("Add", "Sub"):
                 return self.agree(self.of(a), self.of(b), n, "operands of + / - have different units")
             if k == "Mult":
+                for x, y in ((a, b), (b, a)):
+                    if y.op == "Ext" and y.attr in ASTROPY_UNITS:
+                        # number * astropy unit: the number must already be expressed in that unit
+                        ux = self.of(x)
+                        want = ASTROPY_UNITS[y.attr]
+                        if definite(ux) and not compatible(ux, want) and not (ux.is_pure() and want.ang == "rad"):
+                            self.conflict(n, "value labelled with an astropy unit it is not expressed in", ux, want)
+                        return TOP
                 return self._mul(self.of(a), self.of(b), a, b, 1)
             if k == "Div":
                 return self._mul(self.of(a), self.of(b), a, b, -1)
@@ -309,6 +319,9 @@ class UnitFacet:
             ub = self.of(base)
             if n.attr in ("via-view", "method", "del"):
                 return ub
+            if idx.op == "Const" and isinstance(idx.attr, str):
+                self.of(val)
+                return TOP           # mapping item assignment, not an array store
             uv = self.of(val)
             return self.agree(ub, uv, n, "value stored into an array of a different unit")
         if op == "Phi":
